@@ -460,7 +460,10 @@ def check_case(case: dict) -> Tuple[Optional[str], List[str], dict]:
 
 
 def short(r: Any) -> str:
-    s = repr(r)
+    try:
+        s = repr(r)
+    except Exception:  # noqa  (a value whose own __repr__ raises, e.g. an instance with an unset field)
+        s = f"<{type(r).__name__}: repr raised>"
     return s[:90]
 
 
@@ -473,6 +476,63 @@ def call(v: Any, x: Any, mode: str) -> Any:
         raise
     except BaseException as e:  # noqa
         return ("raised", type(e).__name__)
+
+
+def gen_derived_case(ag: Any, rng: random.Random) -> dict:
+    """a pair of *derived* validators for one annotation: the library's default resolver and its strict (signature)
+    resolver - for record classes that is `DataclassValidator(cls)` against `DataclassValidator(cls, typehint_resolver=…)`,
+    two validators that differ in nothing but the resolver"""
+    ag.reset()
+    ag.user_rate = 0.0
+    ag.async_rate = 0.0
+    a = ag.gen_ann(rng.choice([1, 1, 2, 2, 3]))
+    xs = []
+    for _ in range(6):
+        x = ag.conform_ann(a)
+        if rng.random() < 0.4:
+            x = ag.near_miss(x)
+        xs.append(x)
+    return {"kind": "derived", "ann": a, "xs": xs, "classes": ag.classes}
+
+
+def check_derived(case: dict, rng: random.Random) -> Tuple[Optional[str], List[str], dict]:
+    import typing
+    from koda_validate.signature import resolve_signature_typehint_default
+    from koda_validate.typehints import get_typehint_validator
+    from . import ann_stream
+    ctx = wire.Ctx()
+    try:
+        for _f in getattr(typing, "_cleanups", []):
+            _f()
+        ann = ann_stream.build_ann(ctx, case["ann"], rng)
+        v1 = get_typehint_validator(ann)
+        v2 = resolve_signature_typehint_default(ann)
+        top = case["ann"].get("a")
+        if top in ("dataclass", "namedtuple", "typeddict") and rng.random() < 0.7:
+            # the record validator itself, twice: nothing differs but the resolver its fields are derived with
+            from koda_validate import DataclassValidator, NamedTupleValidator, TypedDictValidator
+            ctor = {"dataclass": DataclassValidator, "namedtuple": NamedTupleValidator, "typeddict": TypedDictValidator}[top]
+            v1 = ctor(ann)
+            v2 = ctor(ann, typehint_resolver=resolve_signature_typehint_default)
+        xs = [wire.mk_value(ctx, x) for x in case["xs"]]
+    except Exception as e:  # noqa
+        return f"{type(e).__name__}: {e}", [], {}
+    fails: List[str] = []
+    try:
+        eq = bool(v1 == v2)
+    except Exception as e:  # noqa
+        return None, [f"== raised {type(e).__name__}"], {}
+    info = {"eq": eq}
+    if eq:
+        for x in xs:
+            for mode in ("sync", "async"):
+                r1 = build.run_real(ctx, v1, x, mode)["out"]
+                r2 = build.run_real(ctx, v2, x, mode)["out"]
+                if wire.normalise(wire.strip_ids_public(r1)) != wire.normalise(wire.strip_ids_public(r2)):
+                    fails.append(f"{mode}: the validators derived from one annotation by the default and by the strict resolver "
+                                 f"compare equal but answer differently on {json.dumps(wire.canon_value(ctx, x))[:120]}")
+                    return None, fails, info
+    return None, fails, info
 
 
 def shard(seed: int, shard_i: int, n: int, opts: dict) -> dict:
@@ -530,6 +590,20 @@ def shard(seed: int, shard_i: int, n: int, opts: dict) -> dict:
                 pass
         if len(samples) < 1 and c["kind"] == "change":
             samples.append({"v": c["v"], "changed": c["how"], "eq": info.get("eq")})
+    # derived validators: default resolver against strict resolver, same annotation
+    from . import ann_stream
+    ag = ann_stream.AGen(random.Random(f"{seed}-{shard_i}-c19d{opts.get('salt', '')}"))
+    for _ in range(max(20, n // 8)):
+        dc = gen_derived_case(ag, rng)
+        wire.set_classes(dc["classes"])
+        unb, dfails, dinfo = check_derived(dc, rng)
+        if unb:
+            stats["derived:unbuildable"] += 1
+            continue
+        evaluated += 1
+        stats[f"derived:eq={dinfo.get('eq')}"] += 1
+        for f in dfails:
+            failures.append({"property": "C19", "case": dc, "xd": dc["xs"], "what": f, "real": dinfo})
     # executable instances of C19_rename, and the decoder's agreement with `V.rn`
     from . import driver
     answers = driver.run_batch(reqs) if reqs else []
@@ -576,5 +650,8 @@ def run(pid: str, tier: str, seed: int, spec: dict, scale: float = 1.0, salt: st
 
 def replay_case(case: dict) -> List[str]:
     wire.set_classes(case.get("classes", []))
+    if case.get("kind") == "derived":
+        unb, fails, info = check_derived(case, random.Random(0))
+        return fails if not unb else ["case cannot be built: " + unb]
     unb, fails, info = check_case(case)
     return fails if not unb else ["case cannot be built: " + unb]
